@@ -37,5 +37,5 @@ Leave the worktree's source files UNMODIFIED at the end (git checkout -- fedjax)
 {{PRIOR}}Practical notes: Python is /venv/bin/python (3.12, jax 0.11, numpy 2.x, CPU only). `import fedjax` also imports TensorFlow (slow, ~10 s); set JAX_PLATFORMS=cpu. The machine is heavily shared: run only the test files you need, never the whole suite. There is no network. Keep your final answer short: the two summaries and the paths.""")
 prior_txt = ""
 if prior:
-  prior_txt = ("THIS IS A SECOND ROUND. Simple single-site changes of the following kinds were already produced in an earlier round; do NOT repeat them or close variants of them, and aim for something subtler -- a change that only shows along a multi-step history, under a fault/crash at a particular point, for an unusual-but-valid corner of the input space (extreme but documented parameter values, empty/degenerate structures, rarely used documented options and calling forms, less used public entry points that the property statement also covers), or through two cooperating sites that each look fine alone. You may touch any file of the library, not only the anchored ones, as long as the property above is what breaks:\n" + "".join(f"  - {p}\n" for p in prior) + "\n")
+  prior_txt = ("THIS IS A LATER ROUND. Changes of the following kinds were already produced in earlier rounds; do NOT repeat them or close variants of them, and aim for something subtler -- a change that only shows along a multi-step history, under a fault/crash at a particular point, for an unusual-but-valid corner of the input space (extreme but documented parameter values, empty/degenerate structures, rarely used documented options and calling forms, less used public entry points that the property statement also covers), or through two cooperating sites that each look fine alone. You may touch any file of the library, not only the anchored ones, as long as the property above is what breaks:\n" + "".join(f"  - {p}\n" for p in prior) + "\n")
 print(text.replace("{PRIOR}", prior_txt))
